@@ -598,7 +598,9 @@ def main(argv):
         changed = covtie.changed(VERIF, REPO, ctx.id, mod)
     except Exception:
         changed = []
-    if (changed or ctx.broken) and not found and not fresh_inputs() and not os.environ.get('VERIF_NO_ESCALATION'):
+    # (what search() returns is not trusted as evidence of a failing input: only violations it registered with a
+    # concrete input and that are not KNOWN findings count)
+    if (changed or ctx.broken) and not fresh_inputs() and not os.environ.get('VERIF_NO_ESCALATION'):
         ctx.coverage['escalation'] = {'reason': (changed[:5] or ctx.broken[:5]), 'extra_seeds': []}
         seed0 = ctx.seed
         ev0 = ctx.coverage.get('evaluations')
@@ -615,10 +617,10 @@ def main(argv):
             if isinstance(ev0, int) and isinstance(ctx.coverage.get('evaluations'), int):
                 ev0 = ev0 + ctx.coverage['evaluations']
                 ctx.coverage['evaluations'] = ev0
-            if found or fresh_inputs():
+            if fresh_inputs():
                 break
         ctx.seed = seed0
-    if ctx.broken and not found and not fresh_inputs():
+    if ctx.broken and not fresh_inputs():
         # a KNOWN finding never stands in for the failing input of a broken obligation
         ctx.violation('broken-obligation:' + ctx.broken[0],
                       'proof obligations no longer check: ' + ', '.join(ctx.broken[:8]),
